@@ -102,6 +102,7 @@ type Line struct {
 	IgnoreUntil bool   `json:"ignoreUntil"`
 	Cleanup     bool   `json:"cleanup"`
 	Destroyer   bool   `json:"destroyer"`
+	Optional    bool   `json:"optional"`
 	Ctrl        string `json:"ctrl"`
 	Kind        string `json:"kind"`
 	ID          int    `json:"id"`
@@ -287,6 +288,9 @@ type Config struct {
 	// Destroyer: destroy.Controller for the input type runs next to the controller under test (it removes unowned inputs that
 	// are tearing down without finalizers): the complete life cycle without an external party destroying anything
 	Destroyer bool
+	// Optional: MapMetadataOptionalFunc - an input whose value is 3 is not mapped (no output); the mapping of an input flips
+	// whenever its value changes to or from 3
+	Optional bool
 }
 
 var Configs = []Config{
@@ -301,6 +305,7 @@ var Configs = []Config{
 	{Name: "Q", Q: true, Fin: true, IgnoreUntil: true, IgnoreWhile: true, Concurrency: 2},
 	{Name: "T", Fin: true, Destroyer: true},
 	{Name: "Q", Q: true, Fin: true, Concurrency: 2, Destroyer: true},
+	{Name: "T", Fin: true, Optional: true},
 }
 
 type gateT struct {
@@ -389,7 +394,7 @@ func runBehaviour(t *testing.T, tr *vh.Trace, tid string, cfg Config, beh []Cmd)
 			tr.Emit(l)
 		}
 
-		emit(Line{Ev: "reset", Fin: cfg.Fin, IgnoreTd: cfg.IgnoreTd, IgnoreUntil: cfg.IgnoreUntil, Cleanup: cfg.Cleanup, Ctrl: cfg.Name, Destroyer: cfg.Destroyer})
+		emit(Line{Ev: "reset", Fin: cfg.Fin, IgnoreTd: cfg.IgnoreTd, IgnoreUntil: cfg.IgnoreUntil, Cleanup: cfg.Cleanup, Ctrl: cfg.Name, Destroyer: cfg.Destroyer, Optional: cfg.Optional})
 
 		rec := &recorder{CoreState: namespaced.NewState(inmem.Build), emit: emit, last: map[string]Val{}}
 		st := state.WrapCore(rec)
@@ -466,6 +471,17 @@ func runBehaviour(t *testing.T, tr *vh.Trace, tid string, cfg Config, beh []Cmd)
 				Name:            cfg.Name,
 				MapMetadataFunc: func(in *A) *B { return NewB(in.Metadata().ID(), 0) },
 				TransformFunc:   transformF,
+			}
+
+			if cfg.Optional {
+				settings.MapMetadataFunc = nil
+				settings.MapMetadataOptionalFunc = func(in *A) optional.Optional[*B] {
+					if in.TypedSpec().Val == 3 {
+						return optional.None[*B]()
+					}
+
+					return optional.Some(NewB(in.Metadata().ID(), 0))
+				}
 			}
 
 			if cfg.Fin {
